@@ -4,6 +4,7 @@
   `insert` (a live child's pid cannot be handed out again by the OS).
 -/
 import YashModel.Job.Model
+import YashModel.Job.Builtins
 namespace YashModel.Job
 
 /-- indices of occupied slots -/
@@ -46,6 +47,8 @@ def insertPre (s : JobList) (pid : Nat) : Bool :=
 
 def opPre (s : JobList) : Op → Bool
   | .insert pid _ => insertPre s pid
+  | .insertJob pid _ _ _ => insertPre s pid
+  | .amp pid _ _ _ => insertPre s pid
   | _ => true
 
 /-- "a job's number never changes while the job exists": every pid present before is, after the
@@ -58,5 +61,129 @@ def stableB (s s' : JobList) : Bool :=
       (match gets s'.entries i with
        | some j' => j'.pid == j.pid
        | none => false) || !(pidsOf s'.entries).contains j.pid
+
+
+/-! ### what the documentation says about job IDs, `jobs`, `bg`, `fg`, `cmd &`
+
+  `docs/src/interactive/job_control.md` ("Job IDs", "Current and previous jobs"),
+  `docs/src/builtins/{jobs,bg,fg}.md`, `docs/src/language/parameters/special.md` (`!`). -/
+
+/-- indices of the jobs whose command string satisfies `p` -/
+def jobsWhere (s : JobList) (p : List Char → Bool) : List Nat := matchingIdx s.entries (fun j => p j.name) 0
+
+def uniqueOf : List Nat → Option Nat
+  | [i] => some i
+  | _ => none
+
+/-- "Job IDs": `%`, `%%`, `%+` the current job; `%-` the previous job; `%n` job number `n`;
+    `%foo` the job whose command string starts with `foo`; `%?foo` … contains `foo`.
+    Outer `none`: not a job ID (no leading `%`).  Inner `none`: no such job, or not exactly one. -/
+def docDesignates (s : JobList) (op : List Char) : Option (Option Nat) :=
+  match op with
+  | '%' :: t =>
+    if t = [] ∨ t = ['%'] ∨ t = ['+'] then some s.currentJob
+    else if t = ['-'] then some s.previousJob
+    else match t with
+      | '?' :: sub => some (uniqueOf (jobsWhere s (fun n => containsL n sub)))
+      | _ =>
+        if t.all isDigitC ∧ digitsVal t ≠ 0 then
+          some (if (s.get (digitsVal t - 1)).isSome then some (digitsVal t - 1) else none)
+        else some (uniqueOf (jobsWhere s (fun n => isPrefixOfL t n)))
+  | _ => none
+
+/-- the `(number, marker)` pairs of the lines of a `jobs` report (default and `-l` format) -/
+def reportHeads (out : List Char) : List (Nat × Char) :=
+  let lines := (String.ofList out).splitOn "\n"
+  lines.filterMap fun l =>
+    match l.toList with
+    | '[' :: r =>
+      let ds := r.takeWhile isDigitC
+      match r.dropWhile isDigitC with
+      | ']' :: ' ' :: m :: _ => some (digitsVal ds, m)
+      | _ => none
+    | _ => none
+
+/-- "`jobs` output: the current job is marked with `+`, and the previous job with `-`" -/
+def markersOk (s : JobList) (out : List Char) : Bool :=
+  (reportHeads out).all fun (n, m) =>
+    (m == '+') == (s.currentJob == some (n - 1)) && (m == '-') == (s.previousJob == some (n - 1)) &&
+    (m == '+' || m == '-' || m == ' ')
+
+/-- "When the built-in reports a finished job, it removes the job from the job list": the jobs
+    reported (`idxs`) that were finished are gone, every other job is still at its index -/
+def jobsRemovalOk (s s' : JobList) (idxs : List Nat) : Bool :=
+  (occupied s.entries).all fun i =>
+    match s.get i with
+    | none => true
+    | some j =>
+      if idxs.contains i && !j.state.isAlive then (s'.get i).isNone
+      else (match s'.get i with | some j' => j'.pid == j.pid && j'.state == j.state | none => false)
+
+/-- per-operation documentation checks evaluated on the model's own step `s → s'` with output `o` -/
+def docCheck (s s' : JobList) (op : Op) (o : Out) : Option String :=
+  match op with
+  | .jobs args =>
+    if o.status ≠ 0 then none
+    else if !markersOk s o.stdout && !((parseArgs ['l', 'p'] args).map (·.1.contains 'p')).getD false then some "marker"
+    else
+      match (parseArgs ['l', 'p'] args) with
+      | some (_, operands) =>
+        let idxs := if operands.isEmpty then some (occupied s.entries)
+                    else operands.mapM (fun op => (docDesignates s (if op.head? = some '%' then op else '%' :: op)).join)
+        (match idxs with
+         | some idxs => if jobsRemovalOk s s' idxs then none else some "jobs-removal"
+         | none => some "jobs-designation")
+      | none => none
+  | .bg _ args =>
+    -- "The (last) resumed job's process ID is set to the `!` special parameter."  With several
+    -- operands an earlier one changes what `%+`/`%-` mean for a later one (the resumed job becomes
+    -- the current job), so the check is made for at most one operand.
+    if o.status ≠ 0 then none
+    else
+      let target : Option (Option Nat) :=
+        match (parseArgs [] args) with
+        | some (_, []) => some s.currentJob
+        | some (_, [op]) => some (docDesignates s op).join
+        | _ => none
+      (match target with
+       | none => none
+       | some t =>
+         match t.bind s.get with
+         | some j => if s'.lastAsync = j.pid then none else some "bg-async"
+         | none => some "bg-designation")
+  | .fg _ outcome args =>
+    if o.errs ≠ [] then none
+    else
+      let target : Option Nat :=
+        match (parseArgs [] args) with
+        | some (_, []) => s.currentJob
+        | some (_, [op]) => (docDesignates s op).join
+        | _ => none
+      (match target with
+       | none => some "fg-designation"
+       | some i =>
+         match s.get i with
+         | none => some "fg-designation"
+         | some j =>
+           -- "If the resumed job finishes, it is removed from the job list.  If the job gets
+           -- suspended again, it is set as the current job."
+           let final := if j.state.isAlive then outcome else j.state
+           if final.isStopped then (if s'.currentJob = some i then none else some "fg-current")
+           else if (s'.get i).isNone then none else some "fg-removal")
+  | .wres arg =>
+    (match waitSpecOf arg with
+     | some (.jobId op) =>
+       let m : Option Nat := match waitResolve s (.jobId op) with | .ok r => r | .error _ => none
+       if (docDesignates s op).join = m then none else some "wres-designation"
+     | _ => none)
+  | .amp pid _ _ name =>
+    -- `$!` is the process ID of the last asynchronous command, which is a job in the list
+    (match lookup s'.pids s'.lastAsync with
+     | some i =>
+       (match s'.get i with
+        | some j => if s'.lastAsync = pid ∧ j.pid = pid ∧ j.name = name ∧ j.state = .running then none else some "amp-job"
+        | none => some "amp-job")
+     | none => some "amp-async")
+  | _ => none
 
 end YashModel.Job
